@@ -9,6 +9,16 @@ CLAIMED = {
    note="Trusted: Coq kernel + vm_compute; translator (gcc parses the headers, cross-checked by a textual parse); harness/dump_tables.c; GF2Poly.v as the definition of the field. No axioms (Print Assumptions: closed under the global context).",
    technique="Coq proof by exhaustive vm_compute sweep over translator-regenerated tables + model/implementation table correspondence",
    ref="3/C14"),
+ "C19": dict(
+   text="Machine-checked proof (Coq + Flocq) about the Gallina function that tools/c2gallina.py generates from of_rand.c on every run: for every state in 1..2^31-2 the next state is 16807*s mod (2^31-1) (Carta's split = modular multiplication, never 0), seeding accepts exactly 1..2^31-2, the 10,000th state from 1 is 1043618065, the returned value is RFC 5170's binary64 expression, lies in 0..maxv-1 for every maxv <= 2^24 (also for products above 2^53) and equals the exact floor below 2^53. All 2^31-2 states and all maxv at once; the compiled C is tied in by a differential run against the extracted model plus an exact-integer oracle.",
+   note="Trusted: Coq kernel + vm_compute; c2gallina translator and CSem.v (meaning of C's UINT64 and double operators); Flocq 4.1.0; stdlib axioms of the reals (sig_forall_dec, sig_not_dec, functional_extensionality_dep, classic) as printed by Print Assumptions; extraction (ExtrOcamlBasic) and the C/OCaml drivers for the correspondence.",
+   technique="Coq/Flocq proof over a model regenerated from the C source by a translator, plus extracted-model-vs-C correspondence",
+   ref="3/C19"),
+ "C20": dict(
+   text="Machine-checked proof (Coq + Flocq) about the Gallina function generated from blocking_struct.c on every run: the RFC 5052 quantities form a partition (exact layer, all B, L, E >= 1), and for all 32-bit inputs the binary64 computation returns exactly N = ceil(ceil(L/E)/B), A_large = ceil(T/N), A_small = floor(T/N) whenever it returns (partial: the value of I and definedness of the last conversion are covered by the correspondence: exhaustive for T, B <= 200 (1200 thorough), boundary grid to 2^32-1, directed random).",
+   note="Trusted: as C19, plus Blocking.v as the transcription of RFC 5052 section 9.1. The theorem about I (= T mod N) is not proved (named _partial in Properties_C20.v).",
+   technique="Coq/Flocq proof over a translator-generated model (partial for I) + extracted-model-vs-C correspondence with exact-integer oracle",
+   ref="3/C20"),
 }
 checks = []
 for p in props:
